@@ -155,6 +155,9 @@ def gen_cases(rng, n):
     for i in range(n):
         opts = cc.gen_options(rng)
         site = cc.gen_site(rng, start_deep=opts['no_parent'])
+        chain = cc.longest_chain(site)
+        if chain and rng.random() < 0.5:
+            opts['max_redirect'] = chain        # the longest chain is exactly as long as the limit allows: no fetch fails
         conc = rng.choice([1, 1, 2, 3, 4])
         cases.append((site, opts, conc, rng.randrange(1 << 30)))
     return cases
